@@ -820,12 +820,19 @@ func ruleFreshness(c *Ctx) []Ob {
 		s.undec("kinds", "-", err.Error())
 		return s.obs
 	}
-	dt := c.Func(pkgReflect, "(*tDecoder).decodeType")
-	dec := c.Func(pkgReflect, "(*tDecoder).Decode")
-	if dt == nil || dec == nil {
-		s.bad("roles", "-", "decodeType / Decode not found")
+	dec := c.decodeLoopFn()
+	if dec == nil {
+		s.bad("roles", "-", "struct decoder not found")
 		return s.obs
 	}
+	closure := c.decodeClosure()
+	structural := map[*ssa.Function]bool{dec: true} // callees that may end up decoding a struct in place
+	for _, vd := range c.valueDecoders() {
+		if shortFn(vd) != "decodeFixedSizeTypes" && shortFn(vd) != "decodeStringNoCopy" {
+			structural[vd] = true
+		}
+	}
+	_ = closure
 	// (1) call sites of decodeType / Decode: provenance of the destination pointer
 	for _, fn := range c.ModuleFuncs(pkgReflect) {
 		for _, b := range fn.Blocks {
@@ -835,7 +842,7 @@ func ruleFreshness(c *Ctx) []Ob {
 					continue
 				}
 				callee := call.Call.StaticCallee()
-				if callee != dt && callee != dec {
+				if !structural[callee] {
 					continue
 				}
 				var ptr ssa.Value
@@ -869,16 +876,16 @@ func ruleFreshness(c *Ctx) []Ob {
 		}
 	}
 	// (2) non-struct decodes store their destination on every success path
-	for _, fname := range []string{"decodeStringNoCopy", "(*tDecoder).decodeType"} {
-		fn := c.Func(pkgReflect, fname)
-		if fn == nil {
-			fn = c.SSA[pkgReflect].Func(fname)
+	nvd := 0
+	for _, fn := range c.valueDecoders() {
+		if shortFn(fn) == "decodeFixedSizeTypes" {
+			continue // rule T7
 		}
-		if fn == nil {
-			s.bad(fname+":dest-written", "-", "function not found")
-			continue
-		}
+		nvd++
 		destWritten(c, s, fn, k)
+	}
+	if nvd == 0 {
+		s.bad("dest-written", "-", "no value decoder found in the decode closure")
 	}
 	return s.obs
 }
